@@ -899,6 +899,12 @@ func (s *Server) SetReplicationConfig(cfg config.ReplicationConfig) error {
 	if err := s.persistOptions.Persist(s.storage); err != nil {
 		s.persistOptions.SetReplicationConfig(old)
 		if rule != nil {
+			// The object handed to SetRule above is what the rule manager serves now: editing it in
+			// place and setting it again would be compared with itself, trimmed as a no-op and
+			// never written. Roll back on a fresh copy.
+			if served := s.GetRaftCluster().GetRuleManager().GetRule(rule.GroupID, rule.ID); served != nil {
+				rule = served
+			}
 			rule.Count = int(old.MaxReplicas)
 			rule.LocationLabels = old.LocationLabels
 			if e := s.GetRaftCluster().GetRuleManager().SetRule(rule); e != nil {
